@@ -424,6 +424,10 @@ class Interp:
             pass
         if name in self.builtins:
             return self.builtins[name]
+        import builtins as _b
+
+        if hasattr(_b, name):
+            raise OutOfReach(f"python builtin `{name}` is not modelled")  # a gap of the executor, not a NameError
         raise PyRaise("NameError", name)
 
     # ------------------------------------------------------------------ statements
@@ -856,6 +860,8 @@ class Interp:
             return True
         if isinstance(v, OpaqueStr):
             return True
+        if hasattr(v, "b") and type(v).__name__ == "BoolScalar":
+            return self.truth(v.b)
         raise OutOfReach(f"truth value of {type(v).__name__}")
 
     def iterate(self, v: Any) -> List[Any]:
